@@ -469,6 +469,9 @@ class InProcBackend(object):
     def spawn_failure_done(self):
         return self.spawn_fail[0] == 0
 
+    def disarm_spawn_failure(self):
+        self.spawn_fail[0] = 0
+
     def close_server(self, ceiling):
         """server.close() from a thread of its own, so that a close that does not return is an observation"""
         done = []
@@ -588,6 +591,9 @@ class ForkBackend(object):
 
     def spawn_failure_done(self):
         return self._cmd("forkfailed") == "yes"
+
+    def disarm_spawn_failure(self):
+        self._cmd("nofailfork")
 
     def teardown(self):
         try:
@@ -722,6 +728,9 @@ def forking_child_main(argv):
                     say(state["close"])
             elif cmd == "failfork":
                 state["failfork"] = 1
+                say("-")
+            elif cmd == "nofailfork":
+                state["failfork"] = 0
                 say("-")
             elif cmd == "forkfailed":
                 say("yes" if state["failfork"] == 0 else "no")
@@ -1140,8 +1149,10 @@ class Session(object):
             res = c.connect("g")
             if res == "ok":
                 self.clients[k] = c
-            if wait_for(self.backend.spawn_failure_done, 3.0) is None:
-                raise Infra("the armed spawn()/fork() failure was never met")
+            if res != "ok" or wait_for(self.backend.spawn_failure_done, 3.0) is None:
+                # nobody is accepting any more (or the connection was refused): an observation about the server
+                self.backend.disarm_spawn_failure()
+                return res if res != "ok" else "ok-not-accepted"
             return res
         if t == "c":
             parts = rest.split(":")
